@@ -3,6 +3,7 @@ package main
 import (
 	"errors"
 	"fmt"
+	"io"
 	"reflect"
 
 	"verif/sim/ref"
@@ -28,6 +29,27 @@ type C07Plan struct {
 	BitSample []uint32  `json:"bit_sample,omitempty"`
 	CodecName string    `json:"codec_name,omitempty"`
 	Sites     []C07Site `json:"sites,omitempty"` // explicit sites (replay); nil = enumerate
+	// CbErr: which error value the failing callback returns (callback family):
+	// sentinel | eof | wrapped-eof | unexpected-eof | typed
+	CbErr string `json:"cb_err,omitempty"`
+}
+
+type c07TypedErr struct{ code int }
+
+func (e *c07TypedErr) Error() string { return fmt.Sprintf("typed callback error %d", e.code) }
+
+func c07CallbackErr(kind string) error {
+	switch kind {
+	case "eof":
+		return io.EOF
+	case "wrapped-eof":
+		return fmt.Errorf("sink closed: %w", io.EOF)
+	case "unexpected-eof":
+		return io.ErrUnexpectedEOF
+	case "typed":
+		return &c07TypedErr{code: 7}
+	}
+	return errCallback
 }
 
 var c07Families = []string{"sync", "sync", "crc", "payload", "payload", "payload", "magic", "no-schema", "unknown-codec", "no-codec", "callback", "callback", "baseline"}
@@ -98,6 +120,9 @@ func (c07Prop) Generate(seed uint64, idx int, tier string) *Plan {
 	}
 	if pl.File.Codec == "none" && (pl.Family == "crc" || pl.Family == "payload") {
 		pl.File.Codec = "snappy"
+	}
+	if pl.Family == "callback" {
+		pl.CbErr = r.Pick([]string{"sentinel", "sentinel", "eof", "wrapped-eof", "unexpected-eof", "typed"})
 	}
 	pl.Block = r.Intn(64)
 	for i := 0; i < 64; i++ {
@@ -444,11 +469,12 @@ func (c07Prop) Execute(p *Plan, run *Run) any {
 				recs = append(recs, i)
 			}
 		}
+		cbErr := c07CallbackErr(pl.CbErr)
 		for _, i := range recs {
 			if i >= len(D) {
 				continue
 			}
-			out := readAll(target, openReader(data, pl.Chunks), i, errCallback)
+			out := readAll(target, openReader(data, pl.Chunks), i, cbErr)
 			run.Evals++
 			executed++
 			run.Faults.Inc("CB-err(i)")
@@ -463,14 +489,14 @@ func (c07Prop) Execute(p *Plan, run *Run) any {
 			} else if int64(i) == cum[j+1]-1 {
 				posInBlock = "last-of-block"
 			}
-			run.Sig("callback|%s|%s|%s|%s", codec, pl.File.Writer, posClass(j, len(c.Blocks)), posInBlock)
+			run.Sig("callback|%s|%s|%s|%s|%s", codec, pl.File.Writer, posClass(j, len(c.Blocks)), posInBlock, pl.CbErr)
 			nar := narrowSite(C07Site{Rec: i})
 			if out.Panic != nil {
 				run.Violation("c07/panic", out.PanicSite, fmt.Sprintf("callback failing at record %d: panic: %v", i, out.Panic), nar)
 				return nil
 			}
-			if out.Err != errCallback {
-				run.Violation("c07/callback-error-changed", "callback", fmt.Sprintf("callback returned its sentinel error at record %d of %d; ReadFile returned %q instead of that same error value", i, len(D), errString(out.Err)), nar)
+			if out.Err != cbErr {
+				run.Violation("c07/callback-error-changed", "callback", fmt.Sprintf("callback returned the error value %q (%s) at record %d of %d; ReadFile returned %q instead of that same error value", cbErr, pl.CbErr, i, len(D), errString(out.Err)), nar)
 				return nil
 			}
 			if len(out.Delivered) != i+1 {
